@@ -258,6 +258,34 @@ def chunk_angles(p, n):
             p.check(got2 == exp, 'angle-args:' + cls, 'angle_args', inp, got2, exp, call + '  # and with lon given as the float .dec() value')
 
 
+def chunk_coord_objects(p, n):
+    """the object interface to the same conversion (CoordGeo.tm, geodepy/coord.py is one of the property's anchors):
+    it must give exactly the numbers of geo2grid for the ellipsoid and projection requested, for float and
+    angle-class latitude/longitude"""
+    import geodepy.coord as CO
+    rng = p.rng
+    for _ in range(n):
+        lat, lon, zone, ell, prj = gen_case(rng)
+        try:
+            exp = C.geo2grid(lat, lon, 0, ell, prj)
+        except ValueError:
+            continue
+        for cls, mk, src in [('float', float, 'float')] + list(ANGLE_CLASSES):
+            try:
+                alat, alon = mk(lat), mk(lon)
+                e2 = exp if cls == 'float' else C.geo2grid(alat.dec(), alon.dec(), 0, ell, prj)
+            except Exception:
+                continue
+            inp = {'cls': cls, 'lat': lat, 'lon': lon, 'ell': enc_ell(ell), 'prj': enc_prj(prj)}
+            call = f'CoordGeo({src}({lat!r}), {src}({lon!r})).tm({src_ell(ell)}, {src_prj(prj)})'
+            ok, t = p.guarded('coordgeo-tm:raises', 'coord_objects', inp, lambda: CO.CoordGeo(alat, alon).tm(ell, prj), call)
+            p.case('coord_objects', inp)
+            if not ok:
+                continue
+            got = ('North' if t.hemi_north else 'South', t.zone, t.east, t.north)
+            p.check(got == tuple(e2[:4]), 'coordgeo-tm:differs-from-geo2grid', 'coord_objects', inp, list(got), list(e2[:4]), call)
+
+
 def last_double_below_180(p):
     """clause (b) at the largest longitude of the domain [-180, 180): still one of the zones 1..60"""
     lon = math.nextafter(180.0, 0.0)
@@ -280,6 +308,7 @@ def run(p):
         (chunk_zone, 'zone', 16 if t else 1, p.n(1200, 12000)),
         (chunk_hemisphere, 'hemisphere', 16 if t else 1, p.n(900, 8000)),
         (chunk_angles, 'angles', 16 if t else 1, p.n(200, 2500)),
+        (chunk_coord_objects, 'coord-objects', 16 if t else 1, p.n(150, 2000)),
     ])
 
 
